@@ -801,6 +801,22 @@ class Harness:
         t = getattr(self.node, "_connection_thread", None)
         return t is not None and t.is_alive()
 
+    def io_blocked_stack(self):
+        """Where the I/O thread is, if it is alive but neither parked in select() nor inside the harness (i.e.
+        blocked or spinning in library code); None otherwise."""
+        import sys
+        import traceback
+        t = getattr(self.node, "_connection_thread", None)
+        if t is None or not t.is_alive() or self.parked:
+            return None
+        fr = sys._current_frames().get(t.ident)
+        if fr is None:
+            return None
+        st = [f"{os.path.basename(f.filename)}:{f.name}:{f.lineno}" for f in traceback.extract_stack(fr)[-4:]]
+        if not st or st[-1].startswith("harness.py"):
+            return None
+        return st
+
     def wait_parked(self, timeout=None):
         end = real_time.time() + (timeout or self.watchdog)
         with self.cv:
@@ -951,10 +967,17 @@ class Harness:
                     except Exception:
                         pass
             for c in list(self.conns):
-                try:
-                    c.close(False)
-                except Exception:
-                    pass
+                # a close() that blocks (a lock held by a thread that is itself stuck) must not hang the harness
+                def _close(c=c):
+                    try:
+                        c.close(False)
+                    except Exception:
+                        pass
+                t = real_threading.Thread(target=_close, daemon=True, name="teardown-close")
+                t.start()
+                t.join(1.0)
+                if t.is_alive():
+                    self.teardown_blocked = True
             leaked = []
             for c in list(self.conns):
                 for t in (c._read_thread, c._write_thread):
